@@ -33,7 +33,7 @@ export const propName = (n) => (IDENT.test(n) ? n : JSON.stringify(n));
 
 export function render(t, st = {}) {
   const s = render0(t, st);
-  if (st.parens && !["prim", "typed", "param", "typeof", "raw"].includes(t.k) && !st.noParensHere) return `(${s})`;
+  if (st.parens && !["prim", "typed", "param", "typeof", "raw"].includes(t.k) && !st.noParensHere) return st.parens === 2 ? `((${s}))` : `(${s})`;
   return s;
 }
 function render0(t, st) {
@@ -555,6 +555,18 @@ export function f3() {
     ],
     [["A", Ref("Tree")], ["B", Ref("Flop")], ["C", Ref("Flip")], ["D", U(Ref("Tree"), Ref("Leaf"))]],
     "recursion through inline discriminated unions",
+  );
+  // Map keys / Set items of structured types (keys and items are projected like any other position)
+  add(
+    [
+      Alias("MK1", MapT(ObjT([Prop("id", P("number"))]), P("string"))),
+      Alias("MK2", MapT(Tup([P("string"), ObjT([Prop("a", P("number"), true)])]), ObjT([Prop("v", P("string"))]))),
+      Alias("SK1", SetT(ObjT([Prop("id", P("number"))]))),
+      Alias("MK3", ObjT([Prop("m", MapT(ObjT([Prop("id", P("number"))]), ArrT(ObjT([Prop("x", L(1))])))), Prop("s", SetT(Tup([ObjT([Prop("k", P("string"))])])), true)])),
+      Alias("MK4", U(MapT(ObjT([Prop("id", P("number"))]), P("string")), P("null"))),
+    ],
+    [["A", Ref("MK1")], ["B", Ref("MK2")], ["C", Ref("SK1")], ["D", Ref("MK3")], ["E", Ref("MK4")]],
+    "Map keys and Set items of structured types",
   );
   // intersections of named objects
   add(
